@@ -40,6 +40,20 @@ func (c *VC) ghostBuiltin(st *State, name string, call *ast.CallExpr) []*Term {
 	}
 	it := types.Typ[types.Int]
 	switch name {
+	case "domain":
+		// a restriction of the verified domain: assumed when the function itself is verified, but
+		// NOT an obligation at its call sites (listed as an assumption). Used where the condition is
+		// a structural invariant established by code outside the subset (reflection-built tables).
+		c.assumptions["DOMAIN restriction (assumed, not checked at call sites): "+text] = true
+		if run != nil {
+			if run.own && run.phase == 1 {
+				run.onReq(text, call.Pos(), st, c.evalCond(st, call.Args[0]))
+			}
+			return nil
+		}
+		t := c.evalCond(st, call.Args[0])
+		st.pc = mkAnd(st.pc, t)
+		return nil
 	case "requires":
 		if run != nil {
 			if run.phase == 1 {
@@ -499,8 +513,9 @@ func (c *VC) callByContract(st *State, fi *FuncInfo, args []*Term, call *ast.Cal
 		}
 	}
 	run := &contractRun{phase: 1}
+	inSpec := c.ghost > 0
 	run.onReq = func(text string, pos token.Pos, g *State, t *Term) {
-		if c.ghost > 1 {
+		if inSpec {
 			return // calls inside specifications carry no obligations
 		}
 		c.addObl("call-pre", ctext+": "+text, call.Pos(), g.pc, t)
@@ -691,7 +706,7 @@ func (c *VC) verify() {
 		for i, p := range kps {
 			g.env[p] = entry[i]
 		}
-		run := &contractRun{phase: 1}
+		run := &contractRun{phase: 1, own: true}
 		var reqs []*Term
 		run.onReq = func(text string, pos token.Pos, gs *State, t *Term) {
 			reqs = append(reqs, mkImplies(gs.pc, t))
